@@ -48,6 +48,9 @@ claimed["C03"]["text"] += " A second engine (vpoll) runs the real netpoll.Poller
 claimed["C18"] = dict(engine="vsim", category="fault_enumeration", design="DESIGN.md §3 C18", technique=SIM_TECH + "; single faults enumerated per call site and call index over seeded scenarios", note=SIM_NOTE + " Enumeration is complete per scenario for the listed sites, call indexes up to the bound and errno sets (reported as scenarios-enumerated-completely); scenarios themselves are sampled. Fatal epoll_wait errors, EMFILE on accept and eventfd write failures are not injected (the engine shuts down or the statement does not cover them).",
    text="For each seeded scenario the syscall trace of a fault-free run is recorded, then every single fault (site x call index <= K x realistic errno) is injected in a separate deterministic run on the same schedule prefix, with bystander connections carrying byte-checked traffic and a late probe connection proving the engine stayed up; plus random plans with random faults. Found that a failing epoll_ctl MOD in eventloop.write left the connection open with a stale registration (repaired).")
 
+claimed["C19"] = dict(engine="vsim", category="exploration", design="DESIGN.md §3 C19", technique=SIM_TECH + "; answers checked against a small reference state machine with windows for calls that overlap a state change", note=SIM_NOTE + " The harness only knows the engine state through what it observed (OnBoot, the run task blocking in stop, stop requests, Run returning): calls overlapping a transition are accepted with either neighbour's answer.",
+   text="Seeded search over sequences of control calls from one or several simulated goroutines against every engine state, including calls racing with a shutdown started by any other source at any scheduler step and Stop with cancelled/expiring contexts on the bubble's fake clock; a reference state machine decides the legal answers. Found that a Register/Enroll accepted while the engine shuts down never delivers a result (known finding).")
+
 not_applicable = {
  "C16": "pure function of a string / a few integers (parseProtoAddr, capacity normalisation, loop-count clamp): no schedule, clock, I/O or fault for a simulator to control; generating strings would be input fuzzing in simulator vocabulary (DESIGN.md §4)",
  "C20": "pure integer arithmetic (power-of-two helpers, size-class index, GFD pack/unpack): exhaustive enumeration or proof is the right tool, not simulation (DESIGN.md §4)",
